@@ -342,3 +342,88 @@ pub fn read_at(b: &[u8], off: usize, w: u8) -> u32 {
 pub fn write_at(b: &mut [u8], off: usize, w: u8, v: u32) {
 	match w { 1 => b[off] = v as u8, 2 => b[off..off + 2].copy_from_slice(&(v as u16).to_be_bytes()), _ => b[off..off + 4].copy_from_slice(&v.to_be_bytes()) }
 }
+
+// ---------------------------------------------------------------- bootstrap expansion estimate
+/// For a well-formed class: the number of `Loadable` values the reader's tree has to hold because
+/// bootstrap arguments are stored by value in every ldc / invokedynamic instruction
+/// (sum over those instructions of the expanded argument count, each capped at 65536).
+pub fn bootstrap_expansion(b: &[u8]) -> Option<u64> {
+	struct R<'a> { b: &'a [u8], p: usize }
+	impl<'a> R<'a> {
+		fn u8(&mut self) -> Option<u8> { let x = *self.b.get(self.p)?; self.p += 1; Some(x) }
+		fn u16(&mut self) -> Option<u16> { let s = self.b.get(self.p..self.p + 2)?; self.p += 2; Some(u16::from_be_bytes([s[0], s[1]])) }
+		fn u32(&mut self) -> Option<u32> { let s = self.b.get(self.p..self.p + 4)?; self.p += 4; Some(u32::from_be_bytes([s[0], s[1], s[2], s[3]])) }
+		fn take(&mut self, n: usize) -> Option<&'a [u8]> { let s = self.b.get(self.p..self.p.checked_add(n)?)?; self.p += n; Some(s) }
+	}
+	let mut r = R { b, p: 0 };
+	r.take(8)?;
+	let count = r.u16()? as usize;
+	// per pool index: Some(bsm index) for Dynamic (17) / InvokeDynamic (18)
+	let mut dynamic: Vec<Option<u16>> = vec![None; count.max(1)];
+	let mut utf8: HashMap<usize, &[u8]> = HashMap::new();
+	let mut i = 1;
+	while i < count {
+		match r.u8()? {
+			1 => { let l = r.u16()? as usize; utf8.insert(i, r.take(l)?); }
+			3 | 4 => { r.take(4)?; }
+			5 | 6 => { r.take(8)?; i += 1; }
+			7 | 8 | 16 | 19 | 20 => { r.take(2)?; }
+			9 | 10 | 11 | 12 => { r.take(4)?; }
+			17 | 18 => { dynamic[i] = Some(r.u16()?); r.take(2)?; }
+			15 => { r.take(3)?; }
+			_ => return None,
+		}
+		i += 1;
+	}
+	r.take(6)?;
+	let n = r.u16()? as usize; r.take(2 * n)?;
+	let mut codes: Vec<&[u8]> = vec![];
+	let mut bsms: Vec<Vec<u16>> = vec![];
+	for _ in 0..2 {
+		let members = r.u16()?;
+		for _ in 0..members {
+			r.take(6)?;
+			let na = r.u16()?;
+			for _ in 0..na {
+				let name = r.u16()? as usize; let len = r.u32()? as usize; let body = r.take(len)?;
+				if utf8.get(&name).copied() == Some(b"Code") {
+					let mut c = R { b: body, p: 4 };
+					let cl = c.u32()? as usize;
+					codes.push(c.take(cl)?);
+				}
+			}
+		}
+	}
+	let na = r.u16()?;
+	for _ in 0..na {
+		let name = r.u16()? as usize; let len = r.u32()? as usize; let body = r.take(len)?;
+		if utf8.get(&name).copied() == Some(b"BootstrapMethods") {
+			let mut c = R { b: body, p: 0 };
+			let k = c.u16()?;
+			for _ in 0..k { c.u16()?; let a = c.u16()?; let mut v = vec![]; for _ in 0..a { v.push(c.u16()?); } bsms.push(v); }
+		}
+	}
+	const CAP: u64 = 65536;
+	fn expand(idx: u16, dynamic: &[Option<u16>], bsms: &[Vec<u16>], depth: usize, memo: &mut HashMap<u16, u64>) -> u64 {
+		if depth > 66 { return 1; }
+		let Some(Some(b)) = dynamic.get(idx as usize) else { return 1; };
+		if let Some(&m) = memo.get(&idx) { return m; }
+		let mut t = 1u64;
+		if let Some(args) = bsms.get(*b as usize) { for &a in args { t = (t + expand(a, dynamic, bsms, depth + 1, memo)).min(CAP); if t >= CAP { break; } } }
+		memo.insert(idx, t);
+		t
+	}
+	let mut memo = HashMap::new();
+	let mut total = 0u64;
+	for code in codes {
+		// instruction walk (only what is needed to find ldc / ldc_w / ldc2_w / invokedynamic)
+		let mut w = Walker { b: code, p: 0, sites: vec![], utf8: HashMap::new() };
+		w.code(0, code.len());
+		for s in w.sites.iter().filter(|s| s.kind == Kind::PoolIdx) {
+			let op = code[s.off - 1];
+			let idx = read_at(code, s.off, s.w) as u16;
+			if matches!(op, 0x12 | 0x13 | 0x14 | 0xba) { total = total.saturating_add(expand(idx, &dynamic, &bsms, 0, &mut memo)); }
+		}
+	}
+	Some(total)
+}
